@@ -386,9 +386,16 @@ func (c *Ctx) Finish(known []KnownFinding, evidencePath string) (*Result, error)
 		}
 		sort.Strings(names)
 		for _, r := range names {
-			if cnt[r] < c.RuleMin[r] {
+			// the floor guards against a rule that has lost its subject, not against refactoring: for censuses of more than three
+			// confirmed instances it is 60 % of the confirmed count (moving code into helpers legitimately merges or removes sites;
+			// the named subjects of every rule are separately anchored and an unresolved anchor fails on its own)
+			floor := c.RuleMin[r]
+			if floor > 3 {
+				floor = (floor*6 + 9) / 10
+			}
+			if cnt[r] < floor {
 				c.Ob("coverage", "", "rule "+r+" has its subjects", token.NoPos).Fail(
-					"rule %s generated %d obligations; at least %d instances were confirmed by reading on the pinned tree — the rule lost (part of) its subject and would pass vacuously", r, cnt[r], c.RuleMin[r])
+					"rule %s generated %d obligations; %d instances were confirmed by reading on the pinned tree (floor %d) — the rule lost (part of) its subject and would pass vacuously", r, cnt[r], c.RuleMin[r], floor)
 			}
 		}
 	}
